@@ -77,6 +77,8 @@ type isoObs struct {
 	Opt3     bool
 	ErrText  string
 	Pos      []cmpb.Pos
+	NErr     int
+	AllPos   bool
 }
 
 func observeIso(content map[string]string) isoObs {
@@ -92,6 +94,13 @@ func observeIso(content map[string]string) isoObs {
 	case c.Err != nil:
 		o.ErrText = c.Err.Error()
 		o.Pos = cmpb.Positions(c.Err)
+		o.NErr = len(o.Pos)
+		o.AllPos = true
+		for _, p := range o.Pos {
+			if posProblem(p, content, mainFile) != "" {
+				o.AllPos = false
+			}
+		}
 		switch {
 		case strings.Contains(o.ErrText, "convertJ5File"):
 			o.Verdict = "VConvErr"
@@ -208,7 +217,7 @@ func runC07(cfg *vh.Config) error {
 				corpus = append(corpus, content)
 			}
 		}
-		cf.Terms = append(cf.Terms, fmt.Sprintf("CIso %s %q %s %s %s %q %s %s", p.Coq(), refFilePath, o.Verdict, coqStrList(o.Imports), coqStrList(o.Exts), o.PType, b(o.Repeated), b(o.Opt3)))
+		cf.Terms = append(cf.Terms, fmt.Sprintf("CIso %s %q %s %s %s %q %s %s %d%%nat %s", p.Coq(), refFilePath, o.Verdict, coqStrList(o.Imports), coqStrList(o.Exts), o.PType, b(o.Repeated), b(o.Opt3), o.NErr, b(o.AllPos)))
 		res.Cases = append(res.Cases, vh.CaseRec{Case: caseNo, Stream: "iso", Input: in, Impl: o})
 		if lang && o.Verdict == "VOk" && (p.Shape.Item.Rules || p.Shape.Item.LRules) {
 			res.Sample(map[string]any{"stream": "iso", "source": content[mainFile], "imports": o.Imports, "field_extensions": o.Exts}, 3)
@@ -300,6 +309,90 @@ func runC07(cfg *vh.Config) error {
 				cf.Terms = append(cf.Terms, fmt.Sprintf("%s %s %s %s %s", a.Kind, a.Coq, o.Verdict, coqStrList(o.Imports), coqStrList(o.Exts)))
 			}
 			res.Cases = append(res.Cases, vh.CaseRec{Case: caseNo, Stream: "abs", Input: in, Impl: o})
+			caseNo++
+		}
+	}
+
+	// ---- stream 1c: whole files of several declarations against model/CmpbDecls.v file_state / file_verdict
+	{
+		rF := cfg.R.Fork("files")
+		pool := isoMatrix(rF, false)
+		nF := cfg.Scale(90, 1500)
+		type fileCase struct {
+			Coq     string
+			Files   map[string]string
+			InLang  bool
+			ListReq bool
+		}
+		fcs := make([]fileCase, nF)
+		for i := range fcs {
+			c, f, l, lr := genFile(rF, pool)
+			fcs[i] = fileCase{c, f, l, lr}
+		}
+		type fobs struct {
+			Verdict              string
+			Main, Service, Topic []string
+			ErrText              string
+			Pos                  []cmpb.Pos
+		}
+		obs := parallel(nF, "file", caseNo,
+			func(i int) any { return map[string]any{"decls": fcs[i].Coq, "files": fcs[i].Files} },
+			func(i int) fobs {
+				c := compileOnce(fcs[i].Files, "foo.v1")
+				var o fobs
+				switch {
+				case c.TimedOut:
+					o.Verdict, o.ErrText = "VOther", "timeout"
+				case c.Panic != nil:
+					o.Verdict, o.ErrText = "VPanic", fmt.Sprint(c.Panic)
+				case c.Err != nil:
+					o.ErrText = c.Err.Error()
+					o.Pos = cmpb.Positions(c.Err)
+					switch {
+					case strings.Contains(o.ErrText, "convertJ5File"):
+						o.Verdict = "VConvErr"
+					case strings.HasPrefix(o.ErrText, "resolve file"):
+						o.Verdict = "VLinkErr"
+					default:
+						o.Verdict = "VOther"
+					}
+				default:
+					o.Verdict = "VOk"
+					if f := fileByPath(c.Files, mainProto); f != nil {
+						o.Main = depList(f)
+					}
+					if f := fileByPath(c.Files, "foo/v1/service/a.p.j5s.proto"); f != nil {
+						o.Service = depList(f)
+					}
+					if f := fileByPath(c.Files, "foo/v1/topic/a.p.j5s.proto"); f != nil {
+						o.Topic = depList(f)
+					}
+				}
+				return o
+			})
+		for i, fc := range fcs {
+			o := obs[i]
+			in := map[string]any{"decls": fc.Coq, "files": fc.Files}
+			distinct.Add(fc.Files[mainFile])
+			res.Count("file")
+			res.Count("file_" + o.Verdict)
+			switch o.Verdict {
+			case "VPanic":
+				if !fc.ListReq {
+					res.Fail(vh.Failure{Case: caseNo, Stream: "file", Sig: "C07 file of several declarations: panic " + errClass(o.ErrText), Clause: "never panics", Input: in, Got: o.ErrText})
+				}
+			case "VOther":
+				res.Fail(vh.Failure{Case: caseNo, Stream: "file", Sig: "C07 file of several declarations: " + errClass(o.ErrText), Clause: "generated file parses (harness expectation) / no hang", Input: in, Got: o.ErrText})
+			case "VLinkErr":
+				res.Fail(vh.Failure{Case: caseNo, Stream: "file", Sig: "C07 file of several declarations: link error (" + errClass(o.ErrText) + ")", Clause: "accepted and links", Input: in, Got: o.ErrText})
+			case "VConvErr":
+				if fc.InLang && !fc.ListReq {
+					res.Fail(vh.Failure{Case: caseNo, Stream: "file", Sig: "C07 file of in-language declarations rejected (" + errClass(o.ErrText) + ")", Clause: "every package within the documented language is accepted", Input: in, Got: o.ErrText})
+				}
+				checkPositions(res, caseNo, "file", "file conversion error", o.Pos, fc.Files, mainFile, in)
+			}
+			cf.Terms = append(cf.Terms, fmt.Sprintf("CFile %s %q %s %s %s %s", fc.Coq, refFilePath, o.Verdict, coqStrList(o.Main), coqStrList(o.Service), coqStrList(o.Topic)))
+			res.Cases = append(res.Cases, vh.CaseRec{Case: caseNo, Stream: "file", Input: in, Impl: o})
 			caseNo++
 		}
 	}
